@@ -254,6 +254,13 @@ def pages(tier):
         ("SEQ", [("C", "u", [(None, ("T", "a"))]), ("C", "f", []), ("C", "w", [(None, ("T", "b"))])]),
         ("SEQ", [("C", "s", []), ("C", "u", [(None, ("T", "a"))]), ("C", "w", [])]),
         ("C", "w", [(None, ("SEQ", [("C", "f", []), ("C", "u", [])]))]),
+        # the same argument-less call in a position that is expanded completely (argument of an expanded call, parser-function
+        # branch) and in a position that follows the selection, in both orders
+        ("SEQ", [("C", "s", [(None, ("C", "w", []))]), ("T", " "), ("C", "w", [])]),
+        ("SEQ", [("C", "w", []), ("T", " "), ("C", "s", [(None, ("C", "w", []))])]),
+        ("SEQ", [("IF", ("T", "1"), ("C", "w", []), ("T", "")), ("T", " "), ("C", "w", [])]),
+        ("SEQ", [("C", "v", []), ("T", " "), ("C", "u", [(None, ("C", "v", []))])]),
+        ("SEQ", [("C", "f", []), ("C", "s", [(None, ("C", "f", []))]), ("C", "f", [])]),
         ("IF", ("T", " x "), ("T", "y"), ("T", "n")),
         ("C", "u", [(None, ("IF", ("T", " 1"), ("C", "s", [(None, ("T", "q"))]), ("T", "")))]),
     ]
